@@ -176,6 +176,16 @@ func runC15x(c c15Case, countCheck bool) *vstat.Failure {
 }
 
 func c15RunRaw(raw json.RawMessage) *vstat.Failure {
+	var probe struct {
+		Readers []json.RawMessage `json:"readers"`
+	}
+	if json.Unmarshal(raw, &probe) == nil && len(probe.Readers) > 0 {
+		m, err := vstat.JSON[c15Multi](raw)
+		if err != nil {
+			return vstat.Failf("bad-replay", "%v", err)
+		}
+		return runC15Multi(m)
+	}
 	c, err := vstat.JSON[c15Case](raw)
 	if err != nil {
 		return vstat.Failf("bad-replay", "%v", err)
@@ -184,6 +194,128 @@ func c15RunRaw(raw json.RawMessage) *vstat.Failure {
 		c.Buf = 1
 	}
 	return runC15(c, true)
+}
+
+// c15Multi is a history over several line readers that are alive at the same
+// time (mtail tails many sources at once, each through its own LineReader).
+// Bytes arrive at one reader at a time; a reader may be flushed in the middle
+// of its life, which is what a file stream does when it notices that its file
+// was truncated or replaced before carrying on with the same reader.  Every
+// reader must deliver its own bytes, framed, whatever the others are doing.
+type c15Multi struct {
+	Readers []int      `json:"readers"` // buffer size of each reader
+	Steps   []c15MStep `json:"steps"`
+}
+
+type c15MStep struct {
+	R     int     `json:"r"`
+	Data  vstat.Q `json:"data,omitempty"`  // bytes that arrive at reader R, read until the source has no more
+	Max   int     `json:"max,omitempty"`   // the source hands out at most this many bytes per read (0: as many as asked)
+	Flush bool    `json:"flush,omitempty"` // the owner flushes R (truncation / replacement) and keeps using it
+}
+
+type c15MSource struct {
+	pending []byte
+	max     int
+}
+
+func (s *c15MSource) Read(p []byte) (int, error) {
+	if len(s.pending) == 0 {
+		return 0, io.EOF
+	}
+	if s.max > 0 && len(p) > s.max {
+		p = p[:s.max]
+	}
+	n := copy(p, s.pending)
+	s.pending = s.pending[n:]
+	return n, nil
+}
+
+func runC15Multi(m c15Multi) *vstat.Failure {
+	return vstat.CatchBounded(60*time.Second, func() *vstat.Failure { return runC15MultiX(m) })
+}
+
+func runC15MultiX(m c15Multi) *vstat.Failure {
+	type rd struct {
+		src  *c15MSource
+		lr   *logstream.LineReader
+		ch   chan *logline.LogLine
+		name string
+		seg  string   // bytes since the last flush
+		want []string // reference lines so far
+		fed  string
+	}
+	ctx := context.Background()
+	rs := make([]*rd, len(m.Readers))
+	total := 0
+	for _, s := range m.Steps {
+		total += strings.Count(string(s.Data), "\n") + 1
+	}
+	open := func(i int) *rd {
+		if rs[i] == nil {
+			size := m.Readers[i]
+			if size <= 0 {
+				size = 1
+			}
+			r := &rd{src: &c15MSource{}, ch: make(chan *logline.LogLine, total+len(m.Steps)+4), name: fmt.Sprintf("c15m-%d", i)}
+			r.lr = logstream.NewLineReader(r.name, r.ch, r.src, size, func() {})
+			rs[i] = r
+		}
+		return rs[i]
+	}
+	for si, s := range m.Steps {
+		if s.R < 0 || s.R >= len(m.Readers) {
+			continue
+		}
+		r := open(s.R)
+		if len(s.Data) > 0 {
+			r.seg += string(s.Data)
+			r.fed += string(s.Data)
+			r.src.pending = append(r.src.pending, s.Data...)
+			r.src.max = s.Max
+			for k := 0; ; k++ {
+				n, err := r.lr.ReadAndSend(ctx)
+				if n == 0 && err == io.EOF {
+					break
+				}
+				if err != nil && err != io.EOF {
+					return vstat.Failf("read-error", "step %d: unexpected error %v", si, err)
+				}
+				if k > len(s.Data)+8 {
+					return vstat.Failf("no-progress", "step %d: reader %d did not drain its source after %d calls", si, s.R, k)
+				}
+			}
+		}
+		if s.Flush {
+			r.lr.Finish(ctx)
+			r.want = append(r.want, refSplit(r.seg)...)
+			r.seg = ""
+		}
+	}
+	for i, r := range rs {
+		if r == nil {
+			continue
+		}
+		r.lr.Finish(ctx)
+		r.want = append(r.want, refSplit(r.seg)...)
+		close(r.ch)
+		var got []string
+		for l := range r.ch {
+			if l.Filename != r.name {
+				return vstat.Failf("wrong-source", "reader %d: line carries source %q want %q", i, l.Filename, r.name)
+			}
+			got = append(got, l.Line)
+		}
+		if len(got) != len(r.want) {
+			return vstat.Failf("multi-line-count", "reader %d of %d was fed %q: got %d lines %q want %d lines %q", i, len(rs), r.fed, len(got), got, len(r.want), r.want)
+		}
+		for k := range r.want {
+			if got[k] != r.want[k] {
+				return vstat.Failf("multi-line-content", "reader %d of %d was fed %q: line %d: got %q want %q", i, len(rs), r.fed, k, got[k], r.want[k])
+			}
+		}
+	}
+	return nil
 }
 
 // c15NonTrivial implements the stated rule.
@@ -250,7 +382,7 @@ func c15Classes(c c15Case) (classes []string) {
 var c15Alphabet = []string{"\n", "\r", "a", "b", "\xe4", "\xb8", "\xad", "\xff"}
 
 func TestC15(t *testing.T) {
-	st := vstat.New("C15", "byte streams over {LF, CR, a, b, the 3 bytes of U+4E2D separately, 0xff} x every composition into reads (zero-length reads included in the random part) x LineReader buffer sizes; non-trivial = CRLF split across two reads, or a line longer than the buffer, or a multi-byte rune split across reads; distinct by (stream, chunking, buffer size)")
+	st := vstat.New("C15", "byte streams over {LF, CR, a, b, the 3 bytes of U+4E2D separately, 0xff} x every composition into reads (zero-length reads included in the random part) x LineReader buffer sizes; non-trivial = CRLF split across two reads, or a line longer than the buffer, or a multi-byte rune split across reads; distinct by (stream, chunking, buffer size); plus histories over 1-4 readers alive at once, non-trivial there = a reader is flushed while holding a partial line and bytes arrive at one reader while another holds a partial line")
 	st.Assumptions = []string{
 		"the source is an io.Reader that may return fewer bytes than asked and (0, nil)",
 		"reference splitter: split at LF, drop one trailing CR per terminated piece, unterminated remainder delivered iff non-empty",
@@ -293,6 +425,83 @@ func TestC15(t *testing.T) {
 				st.NonTrivial(string(b), c)
 			}
 			st.Report(rt, runC15(c, true), c)
+		})
+		if t.Failed() {
+			return
+		}
+		// several readers alive at once, flushed in mid-life
+		st.Check(t, func(rt *rapid.T) {
+			var m c15Multi
+			defer st.Guard(func() any { return m })
+			nr := rapid.IntRange(1, 4).Draw(rt, "readers")
+			sizes := rapid.SampledFrom([]int{1, 2, 4, 8, 8, 32, 32, 4096, 131072})
+			same := rapid.Bool().Draw(rt, "sameSize")
+			for i := 0; i < nr; i++ {
+				if same && i > 0 {
+					m.Readers = append(m.Readers, m.Readers[0])
+				} else {
+					m.Readers = append(m.Readers, sizes.Draw(rt, "size"))
+				}
+			}
+			piece := rapid.SampledFrom([]string{"tail", "AAAA", "BBBBBB", "c", " done\n", "\n", "x\r\n", "\r", "one\ntwo", "中", "\xe4", "\xb8\xad\n", "0123456789abcdef0123456789abcdef0123456789"})
+			ns := rapid.IntRange(1, 24).Draw(rt, "steps")
+			flushes, partialAtFlush, interleaved := 0, false, false
+			open := map[int]string{} // unterminated bytes a reader is holding
+			for i := 0; i < ns; i++ {
+				s := c15MStep{R: rapid.IntRange(0, nr-1).Draw(rt, "r")}
+				switch rapid.IntRange(0, 5).Draw(rt, "kind") {
+				case 0:
+					s.Flush = true
+				case 1:
+					s.Flush = true
+					fallthrough
+				default:
+					var sb strings.Builder
+					for k := rapid.IntRange(1, 3).Draw(rt, "pieces"); k > 0; k-- {
+						sb.WriteString(piece.Draw(rt, "piece"))
+					}
+					s.Data = vstat.Q(sb.String())
+					s.Max = rapid.SampledFrom([]int{0, 0, 1, 3}).Draw(rt, "max")
+				}
+				if len(s.Data) > 0 {
+					for r, held := range open {
+						if r != s.R && held != "" {
+							interleaved = true
+						}
+					}
+					d := open[s.R] + string(s.Data)
+					if j := strings.LastIndexByte(d, '\n'); j >= 0 {
+						d = d[j+1:]
+					}
+					open[s.R] = d
+				}
+				if s.Flush {
+					flushes++
+					if open[s.R] != "" {
+						partialAtFlush = true
+					}
+					open[s.R] = ""
+				}
+				m.Steps = append(m.Steps, s)
+			}
+			st.Eval()
+			if nr > 1 {
+				st.Class("multi:several-readers")
+			}
+			if flushes > 0 {
+				st.Class("multi:flushed-in-mid-life")
+			}
+			if partialAtFlush {
+				st.Class("multi:flush-delivers-a-partial-line")
+			}
+			if interleaved {
+				st.Class("multi:bytes-arrive-while-another-reader-holds-a-partial-line")
+			}
+			if interleaved && partialAtFlush {
+				b, _ := json.Marshal(m)
+				st.NonTrivial(string(b), m)
+			}
+			st.Report(rt, runC15Multi(m), m)
 		})
 	})
 }
